@@ -10,9 +10,12 @@
 package main
 
 import (
+	"context"
 	"flag"
 	"fmt"
 	"strings"
+	"sync"
+	"time"
 
 	drummer "github.com/lni/drummer/v3"
 	"verif/harness/internal/hx"
@@ -207,6 +210,158 @@ func main() {
 				fail("bounded_takeover", "takeover-too-late", fmt.Sprintf("holder %d stopped; no other server took over within %d rounds (took over in round %d)", holder, takeoverBound, took))
 			}
 		}
+		// phase 4 (implementation only, nothing emitted for the model): schedules at the granularity of single DB operations.
+		// A turn is paused before its k-th operation while another server takes a whole turn, or its k-th operation is
+		// issued and then abandoned (the caller stops waiting; the operation may still take effect). Afterwards one server
+		// alone keeps taking turns: it has to become leader within the bound, whatever happened before.
+		for rep := 0; rep < 3; rep++ {
+			sched := []string{}
+			bg := func(i int) {
+				ms[i].TurnCtx(context.Background())
+				sched = append(sched, fmt.Sprintf("turn %d", i+1))
+			}
+			// some servers (often the current holder) stay silent for the whole repetition, so that the others race for
+			// the take-over
+			silent := map[int]bool{}
+			if inst, _ := record(); inst != 0 && r.Intn(3) != 0 {
+				silent[int(inst-1)] = true
+			}
+			for q := 0; q < n; q++ {
+				if r.Intn(5) == 0 && len(silent) < n-1 {
+					silent[q] = true
+				}
+			}
+			active := []int{}
+			for q := 0; q < n; q++ {
+				if !silent[q] {
+					active = append(active, q)
+				}
+			}
+			sched = append(sched, fmt.Sprintf("servers taking turns: %v (numbered from 0)", active))
+			steps := 12 + r.Intn(30)
+			for t := 0; t < steps; t++ {
+				i := active[r.Intn(len(active))]
+				switch x := r.Intn(10); {
+				case x < 5:
+					bg(i)
+				case x < 8:
+					k := 1 + r.Intn(4)
+					sc := newStepCtx(0, k)
+					ms[i].TurnCtx(sc)
+					sched = append(sched, fmt.Sprintf("turn %d, operation %d abandoned (%d operations started)", i+1, k, sc.calls()))
+					time.Sleep(3 * time.Millisecond)
+					run.Count("c14:turn_with_abandoned_operation")
+				default:
+					k := 1 + r.Intn(3)
+					sc := newStepCtx(k, 0)
+					done := make(chan struct{})
+					go func() { ms[i].TurnCtx(sc); close(done) }()
+					select {
+					case <-sc.paused:
+						j := active[r.Intn(len(active))]
+						if j != i {
+							ms[j].TurnCtx(context.Background())
+						}
+						sched = append(sched, fmt.Sprintf("turn %d paused before operation %d; turn %d; turn %d resumed", i+1, k, j+1, i+1))
+						close(sc.resume)
+						<-done
+						run.Count("c14:turn_paused_mid_way")
+					case <-done:
+						sched = append(sched, fmt.Sprintf("turn %d (fewer than %d operations)", i+1, k))
+					}
+				}
+				inst, _ := record()
+				for q, v := range views() {
+					if v.leader && inst != uint64(q+1) {
+						// allowed transiently: the leader learns of it at its next turn; counted, not judged
+						run.Count("c14:stale_leader_observed")
+					}
+				}
+			}
+			time.Sleep(5 * time.Millisecond)
+			x := active[r.Intn(len(active))]
+			bound := 2 * (takeoverBound + 3)
+			took := -1
+			for rd := 1; rd <= bound; rd++ {
+				ms[x].TurnCtx(context.Background())
+				inst, _ := record()
+				if l, _, _, _, _ := ms[x].View(); l && inst == uint64(x+1) {
+					took = rd
+					break
+				}
+				time.Sleep(time.Millisecond)
+			}
+			run.Count("case:sole_survivor")
+			if took < 0 {
+				sched = append(sched, fmt.Sprintf("then server %d alone takes %d turns", x+1, bound))
+				run.Violate(hx.Violation{Property: "C14", Clause: "bounded_takeover", Signature: "sole-survivor-never-leader", Seq: s,
+					What: fmt.Sprintf("after a schedule with paused turns and abandoned operations, server %d took %d turns alone without becoming leader", x+1, bound),
+					Ops:  append([]string{fmt.Sprintf("%d servers; phases 1-3 as in the op stream of sequence %d, then:", n, s)}, sched...)})
+				break
+			}
+			run.Count(fmt.Sprintf("c14:sole_survivor_leader_in_round_%02d", took))
+		}
+		// phase 5 (implementation only): a directed race for the take-over. Everybody but two followers falls silent; the two
+		// watch the dead holder in lock step, and in every round the first one is paused between reading the record and
+		// its next operation while the second takes a whole turn, so that both campaign against the same record and one
+		// loses. Then the winner falls silent too and the loser, alone, has to take over.
+		if n >= 3 {
+			inst, _ := record()
+			cand := []int{}
+			for q := 0; q < n; q++ {
+				if uint64(q+1) != inst {
+					cand = append(cand, q)
+				}
+			}
+			a, b := cand[0], cand[1]
+			if r.Intn(2) == 0 {
+				a, b = b, a
+			}
+			k := 2 + r.Intn(2)
+			sched := []string{fmt.Sprintf("%d servers, holder %d silent; followers %d and %d in lock step", n, inst, a+1, b+1)}
+			for rd := 0; rd < takeoverBound+4; rd++ {
+				sc := newStepCtx(k, 0)
+				done := make(chan struct{})
+				go func() { ms[a].TurnCtx(sc); close(done) }()
+				select {
+				case <-sc.paused:
+					ms[b].TurnCtx(context.Background())
+					close(sc.resume)
+					<-done
+					sched = append(sched, fmt.Sprintf("turn %d paused before operation %d; turn %d; turn %d resumed", a+1, k, b+1, a+1))
+				case <-done:
+					ms[b].TurnCtx(context.Background())
+					sched = append(sched, fmt.Sprintf("turn %d; turn %d", a+1, b+1))
+				}
+			}
+			now, _ := record()
+			loser := -1
+			if now == uint64(a+1) {
+				loser = b
+			} else if now == uint64(b+1) {
+				loser = a
+			}
+			run.Count("case:directed_race")
+			if loser >= 0 {
+				run.Count("c14:race_had_a_winner")
+				bound := 2 * (takeoverBound + 3)
+				took := false
+				for rd := 1; rd <= bound && !took; rd++ {
+					ms[loser].TurnCtx(context.Background())
+					i2, _ := record()
+					if l, _, _, _, _ := ms[loser].View(); l && i2 == uint64(loser+1) {
+						took = true
+					}
+					time.Sleep(time.Millisecond)
+				}
+				if !took {
+					sched = append(sched, fmt.Sprintf("record names %d; then server %d alone takes %d turns", now, loser+1, bound))
+					run.Violate(hx.Violation{Property: "C14", Clause: "bounded_takeover", Signature: "loser-of-a-race-never-leader", Seq: s,
+						What: fmt.Sprintf("server %d lost a race for the take-over against %d; when %d fell silent as well, %d took %d turns alone without becoming leader", loser+1, now, now, loser+1, bound),
+						Ops:  sched})
+				}
+			}
+		}
 		run.Nontrivial(fmt.Sprintf("%d", s))
 		if s == 0 {
 			run.Sample(ops[:min(len(ops), 8)])
@@ -214,6 +369,52 @@ func main() {
 		h.Close()
 	}
 }
+
+// stepCtx is a context that counts the DB operations started under it (every operation of the election code derives its
+// own context with context.WithTimeout, which asks the parent for its deadline exactly once). Before operation pauseAt it
+// blocks until resumed; from operation abandonAt on it is cancelled, so that operation is issued and then abandoned.
+type stepCtx struct {
+	mu        sync.Mutex
+	n         int
+	pauseAt   int
+	abandonAt int
+	paused    chan struct{}
+	resume    chan struct{}
+	done      chan struct{}
+	closed    bool
+}
+
+func newStepCtx(pauseAt, abandonAt int) *stepCtx {
+	return &stepCtx{pauseAt: pauseAt, abandonAt: abandonAt, paused: make(chan struct{}), resume: make(chan struct{}), done: make(chan struct{})}
+}
+
+func (c *stepCtx) calls() int { c.mu.Lock(); defer c.mu.Unlock(); return c.n }
+
+func (c *stepCtx) Deadline() (time.Time, bool) {
+	c.mu.Lock()
+	c.n++
+	n := c.n
+	if c.abandonAt > 0 && n >= c.abandonAt && !c.closed {
+		c.closed = true
+		close(c.done)
+	}
+	c.mu.Unlock()
+	if c.pauseAt > 0 && n == c.pauseAt {
+		close(c.paused)
+		<-c.resume
+	}
+	return time.Now().Add(time.Hour), true
+}
+func (c *stepCtx) Done() <-chan struct{} { return c.done }
+func (c *stepCtx) Err() error {
+	c.mu.Lock()
+	defer c.mu.Unlock()
+	if c.closed {
+		return context.Canceled
+	}
+	return nil
+}
+func (c *stepCtx) Value(interface{}) interface{} { return nil }
 
 func min(a, b int) int {
 	if a < b {
